@@ -47,6 +47,17 @@ CLAIMED.update({
              note=SRV_NOTE + " Partial: no refinement proof of the two ring buffers to lists yet, so enqueue-order = transmit-order rests on the differential tie.", technique="Lean 4 proof (step laws) + differential correspondence + order oracle", design="6 C13"),
 })
 
+CLAIMED.update({
+ "C06": dict(text="Lean theorems (partial) on the event ring model: enqueue_stores (what is enqueued is stored octet for octet under the next id, waiting), getNextWaiting_spec (what is handed out is what was stored; entry becomes sent-unconfirmed), setState_data / setEntryWaiting_data (state changes never touch ids or octets; the close-reset only re-arms sent-unconfirmed entries of the closing connection). Geometry (displacement only of the oldest, N-retention) is NOT proved: tied by the differential, which compares the real ring (pointers and every entry's id/state/size in FIFO order) with the model after every operation with queue sizes 1..40, and by the duplicate/order oracle. Two genuine queue defects were found and repaired through this check.",
+             note=SRV_NOTE + " Partial: no refinement proof of the ring geometry.", technique="Lean 4 proof (entry-level laws) + differential correspondence on ring dumps", design="6 C06"),
+ "C08": dict(text="Lean theorems: activate_exclusive (after STARTDT act on connection i every other used connection of the same group is not started and i is - by induction over the deactivation fold), match_listed_first / match_catch_all (group selection), limit_refuses / callback_refuses (admission), enqueue_all_groups (fan-out). Tie: differential with 1..12 clients, IPv4/IPv6 peers, 0..3 groups, limits, request-callback answers, three server modes + per-operation oracle (at most one started connection per group, open connections within the limit).",
+             note=SRV_NOTE + " Partial: '::'-compressed IPv6 text is outside the model (the C parser leaves octets unwritten); the global invariant is oracle-checked, not a theorem.", technique="Lean 4 proof (step laws, induction over the connection table) + differential correspondence", design="6 C08"),
+ "C18": dict(text="Partial. Lean theorems: deactivate_event / activate_event (DEACTIVATED only from started, ACTIVATED only into started), refused_accept_keeps_counter. Event grammar per connection (OPENED first, CLOSED at most once and last, ACTIVATED/DEACTIVATED alternating), counter = used slots after every operation, client CLOSED/FAILED exactly once per attempt: harness oracles on the real structures in every run; create/start/stop/destroy cycles under LeakSanitizer and the simulated HAL's live-object counters. One genuine client defect (NULL socket dereference in sendStartDT after a failed connect) found and repaired.",
+             note=SRV_NOTE + " Covered: threadless server + threaded client (as fiber). Not covered: threaded server stop/restart accounting.", technique="Lean 4 proof (event laws) + differential correspondence + lifecycle oracles", design="6 C18"),
+ "C09": dict(text="Lean theorems on the decision functions of both slaves, for every ASDU octet string, handler set and handler result: wrong_cot (exactly one mirror with 45), callback_once (allowed cause, complete object, CS104 address zero: exactly one callback with the decoded argument), nonzero_ioa (47), truncated_no_callback, unhandled_gets_44, handled_stops, negative_mirrors + negative_cause (response = request with only the cause octet rewritten). Tie: near-exhaustive differential (type x COT x flags x IOA x truncation x handler subsets) on both real handleASDU functions under ASan + 'at most one response' oracle. Two genuine defects repaired (CS101 double response, CS104 C_TS_TA_1).",
+             note="Trusted: Lean kernel + standard axioms; hand-written decision model Iec.Dispatch tied by the differential of this check; decoder = Iec.Asdu.getElement (C01/C02). Partial: client command builders not modelled.", technique="Lean 4 proof (case analysis of the decision table) + exhaustive differential", design="6 C09"),
+})
+
 NOT_YET = "not claimed yet in this round: the Lean model/theorems and the correspondence harness for this property are still being built (see DESIGN.md section 10 for the order); no other technique is substituted"
 
 checks = []
